@@ -578,6 +578,10 @@ func (c *VirtualTable) Insert(ctx context.Context, values map[int]interface{}) (
 		}
 	}
 	dbg("%T %+v\n", key, key)
+	// NOT NULL is checked before uniqueness, as SQLite does for its own tables
+	if err := c.checkNotNull(values, true); err != nil {
+		return 0, err
+	}
 	var old *v1proto.Row
 	var new v1proto.Row
 	var ot time.Time
@@ -587,9 +591,6 @@ func (c *VirtualTable) Insert(ctx context.Context, values map[int]interface{}) (
 	}
 	if ok && (!old.Deleted || ot.Add(old.DeleteUpdateOffset.AsDuration()).After(t)) {
 		return 0, ErrS3DBConstraintPrimaryKey
-	}
-	if err := c.checkNotNull(values, true); err != nil {
-		return 0, err
 	}
 	new.ColumnValues = make(map[string]*v1proto.ColumnValue)
 	for i, v := range values {
